@@ -114,7 +114,7 @@ def st_bound_case(draw):
 
 class Bounds(Sub):
     name = "bounds"
-    examples = {"quick": 4000, "thorough": 100000}
+    examples = {"quick": 4000, "thorough": 32000}
     shards = {"quick": 4, "thorough": 16}
     rule = RULE
 
@@ -175,7 +175,7 @@ def st_pipeline(draw):
 
 class Pipelines(Sub):
     name = "pipelines"
-    examples = {"quick": 800, "thorough": 25000}
+    examples = {"quick": 800, "thorough": 6400}
     shards = {"quick": 8, "thorough": 16}
     rule = RULE
 
@@ -304,7 +304,7 @@ def expected_sets(stored, case, service_pk):
 
 class Lists(Sub):
     name = "lists"
-    examples = {"quick": 500, "thorough": 12000}
+    examples = {"quick": 500, "thorough": 4000}
     shards = {"quick": 6, "thorough": 16}
     rule = RULE
 
@@ -363,7 +363,7 @@ class Lists(Sub):
 
 class Refresh(Sub):
     name = "refresh"
-    examples = {"quick": 60, "thorough": 1500}
+    examples = {"quick": 60, "thorough": 480}
     shards = {"quick": 4, "thorough": 12}
     rule = ("two generations of an allow list (old, new) drawn by Hypothesis; run_once is executed with a sys.monitoring "
             "INSTRUCTION callback that validates an outsider at EVERY bytecode boundary (exhaustive for the drawn lists); "
